@@ -268,7 +268,13 @@ def judge(chk, pid, md, findings_d11):
 def binding(chk, md):
     """Impl <-> code: every real outcome must be one the Impl layer predicts for this model; witness orders exactly."""
     obs = md.obs
-    if not obs["hook_consistent"]:
+    if not obs["hook_consistent"] and not obs["model_unchanged"]:
+        # the self-check builds one model object several times: a builder that modifies the model it is given makes the builds differ.
+        # That is an observation about the code (C10 / C13: "building never modifies the model"; C06: same model object, different outcome)
+        chk.notes.append("model %s: Build modified its model, the hook self-check is void for it" % md.id)
+        if chk.pid in ("C06", "C10", "C13"):
+            chk.violation("Build modified the model it was given (a second build of the same model object gives another outcome)", {"model": md.m, "id": md.id})
+    elif not obs["hook_consistent"]:
         raise Infra("verif hook self-check failed on %s: the forced-order copy of the AssignWeights loop disagrees with the natural loop" % md.id)
     for o in obs["outcomes"]:
         if real_key(o) not in md.impl:
